@@ -73,6 +73,11 @@ def build_harness(race=False, tags="verif"):
     cmd += ["./cmd/harness"]
     t = time.time()
     p = subprocess.run(cmd, cwd=src, env=GOENV, capture_output=True, text=True)
+    if p.returncode != 0 and tags and "grammar.VerifStep" in p.stderr:
+        # the tree under test has no step hook: build without it (step counts are then not observed; verdicts do not need them)
+        log("the parser step hook is missing in %s: building the harness without the verif tag" % REPO)
+        cmd = [c for c in cmd if c not in ("-tags", tags)]
+        p = subprocess.run(cmd, cwd=src, env=GOENV, capture_output=True, text=True)
     if p.returncode != 0:
         raise Infra("harness does not build against %s:\n%s" % (REPO, p.stderr[-4000:]))
     log("built harness%s in %.1fs" % (" (race)" if race else "", time.time() - t))
